@@ -1,6 +1,6 @@
 (* C10 — property theorems (statements only).  Owner: builder-parse. *)
 From Coq Require Import List NArith Bool Arith.
-From DV Require Import C10.Model C10.Proofs.
+From DV Require Import C10.Model C10.Proofs C10.Backtrack.
 Import ListNotations.
 
 (* longest match: for every key set and every input, outside the `item` and `for .. in` tweaks, the name token is the
@@ -16,6 +16,14 @@ Theorem C10_longest : forall keys inp pos parts cps endpos,
      lex_name keys false inp pos = LName (name_new parts) endpos).
 Proof. exact lex_name_longest. Qed.
 Print Assumptions C10_longest.
+
+(* back-tracking is exact: every collected part is literally the input text whose last character is at its recorded position
+   (ends_at: nth j part = input (S e - length part + j)), so the position the lexer returns to, S (nth (pc - 1) cps 0), is the index
+   right after the last character of the chosen part: no character of the name is lost, none is read twice *)
+Theorem C10_backtrack_exact : forall inp pos parts cps endpos,
+  collect inp pos = (parts, cps, endpos) -> Forall2 (ends_at inp) parts cps.
+Proof. exact backtrack_exact. Qed.
+Print Assumptions C10_backtrack_exact.
 
 Theorem C10_operator_when_unbound : forall keys inp pos parts cps endpos,
   collect inp pos = (parts, cps, endpos) ->
